@@ -1,0 +1,30 @@
+//go:build verif
+
+package blobpacked
+
+import (
+	"reflect"
+
+	"go4.org/syncutil"
+	"perkeep.org/pkg/blobserver"
+)
+
+// VerifSetMaxZipSize forces the maximum zip blob size of a blobpacked storage,
+// so that multi-zip packs can be explored with small files. It reports whether
+// sto was a blobpacked storage.
+func VerifSetMaxZipSize(sto blobserver.Storage, n int) bool {
+	s, ok := sto.(*storage)
+	if !ok {
+		return false
+	}
+	s.forceMaxZipBlobSize = n
+	return true
+}
+
+// VerifStatGateInUse reports how many slots of the package-level stat gate are
+// currently taken.
+func VerifStatGateInUse() int { return verifGateLen(statGate) }
+
+func verifGateLen(g *syncutil.Gate) int {
+	return reflect.ValueOf(g).Elem().Field(0).Len()
+}
